@@ -100,6 +100,11 @@ func (q *MultiOpQueryer) fetch(inputs []*requests.Request) ([]requests.Response,
 		return nil, err
 	}
 
+	// json.Unmarshal resizes the slice to the length of the reply
+	if len(results) != len(inputs) {
+		return nil, errors.New("response contains " + strconv.Itoa(len(results)) + " results for " + strconv.Itoa(len(inputs)) + " requests")
+	}
+
 	// return the results
 	return results, nil
 }
